@@ -34,40 +34,41 @@ Theorem C14_key_hidden_refuted :
 Proof. exact key_printed_refuted. Qed.
 Print Assumptions C14_key_hidden_refuted.
 
-(* ARGV echo.  `blank fl args` is args with the proxy value blanked out at every position where Go's
-   flag syntax assigns the proxy setting (-proxy v, --proxy v, -proxy=v, --proxy=v, legacy -x v / -x=v,
-   -define / --define with a setting that writes proxy, before "--" / the first non-flag argument).
-   PARTIAL: two command lines that agree after blanking are echoed identically, provided no OTHER
-   value-taking option is given a value that reads like a -proxy / -x / -define flag (shadow_free),
-   for any flag set in which proxy / x / define take a value (the daemon's two flag sets do). *)
-Theorem C14_argv_noninterference_partial : forall fl prog a1 a2,
-  flagset_ok fl -> redact_trigger prog = false ->
-  shadow_free fl a1 = true -> shadow_free fl a2 = true ->
-  blank fl a1 = blank fl a2 ->
+(* ARGV echo (redactArgs as of commit 3800b33).  `blank fl args` is args with the proxy value blanked out
+   at every position where Go's flag syntax assigns the proxy setting (-proxy v, --proxy v, -proxy=v,
+   --proxy=v, legacy -x v / -x=v, -define / --define with a setting that writes proxy; up to "--", the
+   first non-flag argument or a parse error).  FULL statement: for every argv[0] and every two command
+   lines that agree after blanking, the echoed lines are identical -- for any flag set on whose options
+   redactArgs' takesValue (new flag set first, then legacy) answers like the flag set itself. *)
+Theorem C14_argv_noninterference : forall fl prog a1 a2,
+  agrees fl -> blank fl a1 = blank fl a2 ->
   redact_args (prog :: a1) = redact_args (prog :: a2).
-Proof. exact argv_noninterference_partial. Qed.
-Print Assumptions C14_argv_noninterference_partial.
+Proof. exact argv_noninterference. Qed.
+Print Assumptions C14_argv_noninterference.
 
-Theorem C14_flagsets_ok : flagset_ok new_flags /\ flagset_ok legacy_flags.
-Proof. exact (conj new_flags_ok legacy_flags_ok). Qed.
-Print Assumptions C14_flagsets_ok.
+(* Both of the daemon's flag sets qualify: no option is boolean in one set and value-taking in the other,
+   and an option known to neither is a parse error (the daemon exits before the echo). *)
+Theorem C14_flagsets_agree : agrees new_flags /\ agrees legacy_flags.
+Proof. exact (conj new_flags_agree legacy_flags_agree). Qed.
+Print Assumptions C14_flagsets_agree.
 
-(* REFUTED without the guard: `--pidfile -x --proxy <value>` sets the proxy to <value> (the pid file is
-   named "-x") and the echo prints <value>. *)
-Theorem C14_argv_noninterference_refuted :
-  exists prog a1 a2, redact_trigger prog = false /\
-    blank new_flags a1 = blank new_flags a2 /\
-    parse_proxy new_flags [] a1 = Some (b "http://u:SECRET1@h:1"%string) /\
-    redact_args (prog :: a1) <> redact_args (prog :: a2) /\
-    echo_monitor (b "SECRET1"%string) (redact_args (prog :: a1)) = false.
-Proof. exact argv_noninterference_refuted. Qed.
-Print Assumptions C14_argv_noninterference_refuted.
+(* Equivalently: the echo is a function of the blanked command line. *)
+Theorem C14_echo_of_blank : forall fl prog args, agrees fl ->
+  redact_args (prog :: args) = redact_args (prog :: blank fl args).
+Proof. exact echo_of_blank. Qed.
+Print Assumptions C14_echo_of_blank.
 
-Theorem C14_argv_noninterference_unguarded_false :
-  ~ (forall prog a1 a2, redact_trigger prog = false -> blank new_flags a1 = blank new_flags a2 ->
-       redact_args (prog :: a1) = redact_args (prog :: a2)).
-Proof. exact argv_noninterference_unguarded_false. Qed.
-Print Assumptions C14_argv_noninterference_unguarded_false.
+(* The command lines on which the echo before 3800b33 printed the proxy (the value of another option
+   reads like -x / --proxy / -define): the proxy is still what the flag parser assigns, and the echo no
+   longer contains it. *)
+Theorem C14_shadow_corpus_redacted :
+  let secret := b "http://u:SECRET1@h:1"%string in
+  forallb (fun a => echo_monitor (b "SECRET1"%string) (redact_args (b "/usr/bin/newrelic-daemon"%string :: a)))
+          (shadow_corpus secret) = true /\
+  map (parse_proxy new_flags []) (firstn 3 (shadow_corpus secret)) = [Some secret; Some secret; Some secret] /\
+  parse_proxy legacy_flags [] (nth 3 (shadow_corpus secret) []) = Some secret.
+Proof. exact shadow_corpus_redacted. Qed.
+Print Assumptions C14_shadow_corpus_redacted.
 
 (* A --define setting that writes cfg.Proxy (configuration lexer, any quoting / spacing / position in
    a multi-line setting) contains the text "proxy", which is what redactArgs tests for. *)
